@@ -350,11 +350,13 @@ def det_reject_report(run, prop, rejects, tp, what, classify):
             {"trace": upto, "reject": rj, "rerun": "VERIF_SEED=%d bin/check %s --tier %s" % (run.seed, prop, run.tier)}, sig)
 
 
-def limiter_pipeline(run, prop, classify_mismatch, classify_reject, graphs=True):
+def limiter_pipeline(run, prop, classify_mismatch, classify_reject, graphs=True, big=False):
     th = run.tier == "thorough"
     indir = os.path.join(run.scratch, "in")
     os.makedirs(indir, exist_ok=True)
-    cfgs = {"simple_t1": ("simple", 1, "a", 2 if th else 1, 2), "precise_t0": ("precise", 0, "b", 2 if th else 1, 1)}
+    # big (the thorough tier of the properties that own the window semantics): two window closings per history; the edge-cover
+    # replay of those graphs takes about twenty minutes, so the other properties keep the one-closing graphs in both tiers
+    cfgs = {"simple_t1": ("simple", 1, "a", 2 if big else 1, 2), "precise_t0": ("precise", 0, "b", 2 if big else 1, 1)}
     if not graphs:
         cfgs = {}
     for name, (strat, thr, script, ms, ma) in cfgs.items():
@@ -369,7 +371,7 @@ def limiter_pipeline(run, prop, classify_mismatch, classify_reject, graphs=True)
     exhaustive = True
     reps = []
     if graphs:
-        out, _ = run.go("^TestLimiterReplay$", env={"VERIF_IN": indir}, timeout=1200)
+        out, _ = run.go("^TestLimiterReplay$", env={"VERIF_IN": indir}, timeout=3600 if big else 1200)
         reps = json.load(open(os.path.join(out, "limiter_replay.json")))
     for rep in reps:
         label = "Limiter/" + os.path.basename(rep["file"])
@@ -415,7 +417,7 @@ def c09(run):
     windowed_part(run, "C09")
     # every mismatch of the Limiter contract is about the window / the samples handed to the algorithm
     limiter_pipeline(run, "C09", lambda m: {"kind": "default", "what": "samples" if _res_field_differs(m, "samples") else "state"},
-                     lambda rj, tr: {"kind": "default", "why": rj["why"]})
+                     lambda rj, tr: {"kind": "default", "why": rj["why"]}, big=run.tier == "thorough")
 
 
 def c05(run):
@@ -571,10 +573,34 @@ def aimd_cfg(bnum, bden, inc, initial, maxl):
             "INVARIANTS DropLowers DropRunReachesFloor Bounds Notified\nCHECK_DEADLOCK FALSE\n") % (bnum, bden, inc, initial, maxl)
 
 
+def functions_part(run, prop, indir):
+    """limit/functions: TLC checks the contract (total, >= 1, monotone, below its argument) and prints one expected value per
+    (baseline, n); every case is evaluated on the real integer and float functions."""
+    th = run.tier == "thorough"
+    cfgt = ("CONSTANTS MaxN = %d Emit = TRUE\nINIT Init\nNEXT Next\nINVARIANTS AtLeastOne Monotone BelowItsArgument\nCHECK_DEADLOCK FALSE\n") % (5000 if th else 1300)
+    r = run.tlc("LimitFunctions", "fn.cfg", cfg_text=cfgt, workers=1, label="mc+gen:LimitFunctions")
+    if r.error or not r.ok:
+        raise Machinery("TLC %s: %s %s\n%s" % (r.label, r.error, r.violation, r.raw[-3000:]))
+    cases = r.json_prints("CASE")
+    if len(cases) < 3000:
+        raise Machinery("LimitFunctions printed %d cases" % len(cases))
+    vlib.write_ndjson(os.path.join(indir, "function_cases.ndjson"), cases)
+    out, _ = run.go("^TestFunctionCases$", env={"VERIF_IN": indir})
+    rep = json.load(open(os.path.join(out, "function_cases.json")))
+    run.extra["function_cases"] = rep["cases"]
+    run.traces += rep["cases"]
+    for m in (rep["mismatches"] or [])[:10]:
+        run.report("limit/functions at baseline %s, n = %s: the real functions give %s, the contract fixes log10 %s / sqrt %s" % (
+            m["case"]["b"], m["case"]["n"], json.dumps(m["got"]), m["case"]["log10"], m["case"]["sqrt"]),
+            {"case": m, "rerun": "bin/check %s" % prop}, {"algo": "functions", "class": "functions"})
+
+
 def limits_pipeline(run, prop, classes, twin=False, aimd=True, vegas=True):
     th = run.tier == "thorough"
     indir = os.path.join(run.scratch, "in")
     os.makedirs(indir, exist_ok=True)
+    if classes & {"bounds", "demand"}:
+        functions_part(run, prop, indir)
     if aimd:
         # exact AIMD model: design check + every transition replayed on the real AIMDLimit
         for name, c in {"half": (1, 2, 1, 10, 60 if th else 40), "seven8": (7, 8, 2, 3, 60 if th else 40), "one": (1, 1, 1, 5, 30), "nine10": (9, 10, 1, 10, 40)}.items():
@@ -659,6 +685,8 @@ def limits_pipeline(run, prop, classes, twin=False, aimd=True, vegas=True):
         seen = set()
         rows = None
         for rj in rejects:
+            if rj["class"] == "bounds" and "finite" in rj["why"] and "demand" in classes:
+                rj = dict(rj, **{"class": "demand", "why": rj["why"] + " (such a state is stuck: nothing raises it again)"})
             if rj["class"] not in classes:
                 run.extra.setdefault("rejections_of_other_classes", {})
                 run.extra["rejections_of_other_classes"][rj["class"]] = run.extra["rejections_of_other_classes"].get(rj["class"], 0) + 1
@@ -675,6 +703,23 @@ def limits_pipeline(run, prop, classes, twin=False, aimd=True, vegas=True):
                 cfg.get("algo"), cfg.get("wrap"), rj["i"], rj["trace"], rj["class"], rj["why"]),
                 {"config": cfg, "sequence": tr[-40:], "reject": rj, "rerun": "VERIF_SEED=%d bin/check %s --tier %s" % (run.seed, prop, run.tier)},
                 {"algo": cfg.get("algo"), "class": rj["class"]})
+    if "bounds" in classes:
+        # a grid of (smoothing, minimum / maximum) pairs, each pinned on its floor and on its ceiling
+        out4, _ = run.go("^TestBoundsGrid$", timeout=900)
+        run.extra["bounds_grid"] = json.load(open(os.path.join(out4, "grid.json")))
+        gp = os.path.join(out4, "grid_trace.ndjson")
+        rejects, total = validate_sharded(run, "LimitTrace", "Limit_trace.cfg", gp)
+        run.events += total
+        run.traces += total
+        seen = set()
+        for rj in rejects:
+            lg = rj["logged"]
+            if lg["algo"] in seen:
+                continue
+            seen.add(lg["algo"])
+            run.report("%s limit with smoothing %s, minimum %s, maximum %s reported estimates in [%s, %s] while pinned on its bounds (%s)" % (
+                lg["algo"], lg["smoothing"], lg["floor"], lg["ceil"], lg["minest"], lg["maxest"], rj["why"]),
+                {"reject": rj, "rerun": "bin/check %s --tier %s" % (prop, run.tier)}, {"algo": lg["algo"], "class": "bounds-grid"})
     if classes & {"loss", "demand"}:
         # two samples racing (real time, bounded wait): the result is that of one of the two serial orders
         out3, _ = run.go("^TestSampleRace$", env={"VERIF_N": 24 if th else 8}, timeout=600)
@@ -891,6 +936,8 @@ def c20(run):
             return {"kind": "default", "what": "limit gauge"}
         return None
     limiter_pipeline(run, "C20", lambda m: {"kind": "default", "what": "emission"} if _res_field_differs(m, "inflight") else None, lim_rj, graphs=th)
+    # free-running goroutines: the in-flight sample of every acquire is the count at its linearisation point
+    gate_stress(run, "C20", 1000 if th else 150, check_n=True)
     # every processed sample of every limit algorithm emits one RTT, one in-flight and a drop increment iff drop (LimitTrace class metrics)
     limits_pipeline(run, "C20", {"metrics"}, aimd=False, vegas=False)
     run.assumptions += ["Start/Stop/Register calls are sequential (the poller is the only concurrent party); the TLC model additionally covers two concurrent callers",
@@ -974,31 +1021,41 @@ def conc_cfg(direct, ll, sl):
             'SPECIFICATION Spec\nINVARIANTS NeverOver RefusedAtLimit NonNegative\nPROPERTY GrantHadRoom\nCHECK_DEADLOCK FALSE\n') % (direct, ll, sl)
 
 
-def gate_stress(run, prop, n):
-    """Free-running goroutines on real limiters; TLC searches each recorded history for a linearisation."""
+GATE_CFG = "CONSTANT CheckN = %s\nINIT Init\nNEXT Next\nCONSTRAINT Mark\nINVARIANT NeverOver\nPOSTCONDITION Report\nCHECK_DEADLOCK FALSE\n"
+
+
+def gate_stress(run, prop, n, check_n=False):
+    """Free-running goroutines on real limiters; TLC searches each recorded history for a linearisation.
+    check_n: the in-flight sample emitted for each acquire must moreover be the count at its linearisation point (C20);
+    a history that has no linearisation even without that requirement is the gate's business (C01) and is not reported."""
     out, _ = run.go("^TestGateStress$", env={"VERIF_N": n}, timeout=900)
     tp = os.path.join(out, "gate_trace.ndjson")
     rows = vlib.read_ndjson(tp)
-    stats = {"histories": n, "events": len(rows), "acquires": 0, "refusals": 0, "completions": 0, "limit_changes": 0}
+    stats = {"histories": n, "events": len(rows), "acquires": 0, "refusals": 0, "completions": 0, "limit_changes": 0, "samples_seen": 0}
     for x in rows:
         if x["t"] == "b":
             stats[{"acq": "acquires", "rel": "completions", "set": "limit_changes"}[x["kind"]]] += 1
         if x["t"] == "e" and not x["ok"]:
             stats["refusals"] += 1
+        if x["t"] == "e" and x.get("n", -1) >= 0:
+            stats["samples_seen"] += 1
     run.extra["stress"] = stats
-    if stats["refusals"] == 0 or stats["limit_changes"] == 0:
+    if stats["refusals"] == 0 or stats["limit_changes"] == 0 or (check_n and stats["samples_seen"] < stats["acquires"]):
         raise Machinery("stress histories are vacuous: %s" % stats)
     run.sample({"stress_history_excerpt": rows[:6]})
     remaining = rows
-    for attempt in range(6):
-        path = os.path.join(out, "gate_%d.ndjson" % attempt)
-        vlib.write_ndjson(path, remaining)
-        r = run.tlc("GateTrace", "Gate_trace.cfg", workers=1, env={"VERIF_TRACE": path}, label="val:GateTrace[%d lines]" % len(remaining),
-                    jvm="-Xmx6g", timeout=1200)
+
+    def validate(lines, path, checkn, label):
+        vlib.write_ndjson(path, lines)
+        r = run.tlc("GateTrace", "gate_%s.cfg" % ("n" if checkn else "g"), cfg_text=GATE_CFG % ("TRUE" if checkn else "FALSE"), workers=1,
+                    env={"VERIF_TRACE": path}, label=label, jvm="-Xmx6g", timeout=1200)
         if r.error or r.violation not in (None, "invariant NeverOver"):
             raise Machinery("GateTrace failed to run: %s %s\n%s" % (r.error, r.violation, r.raw[-3000:]))
         marks = [int(x) for x in r.prints.get("MARK", [])]
-        mark = max(marks) if marks else 0
+        return r, (max(marks) if marks else 0)
+
+    for attempt in range(6):
+        r, mark = validate(remaining, os.path.join(out, "gate_%d.ndjson" % attempt), check_n, "val:GateTrace[%d lines]" % len(remaining))
         run.events += mark
         if r.ok and mark == len(remaining):
             run.traces += len([x for x in remaining if x["t"] == "reset"])
@@ -1007,9 +1064,18 @@ def gate_stress(run, prop, n):
         bad = remaining[min(mark, len(remaining) - 1)]["trace"]
         hist = [x for x in remaining if x["trace"] == bad]
         kind = hist[0].get("kind")
-        run.report("%s: recorded concurrent history %d is not linearisable as an atomic gate (TLC consumed %d of its events%s)" % (
-            kind, bad, sum(1 for x in remaining[:mark] if x["trace"] == bad), ", NeverOver violated" if r.violation else ""),
-            {"history": hist, "rerun": "VERIF_SEED=%d bin/check %s --tier %s" % (run.seed, prop, run.tier)}, {"class": "gate", "kind": kind})
+        consumed = sum(1 for x in remaining[:mark] if x["trace"] == bad)
+        if check_n:
+            r2, mark2 = validate(hist, os.path.join(out, "gate_%d_plain.ndjson" % attempt), False, "val:GateTrace[history %s without samples]" % bad)
+            if r2.ok and mark2 == len(hist):
+                run.report("%s: concurrent history %d is linearisable as an atomic gate, but not with the in-flight samples it emitted: some sample is not the in-flight count at its call's admission decision (TLC consumed %d of its events)" % (
+                    kind, bad, consumed), {"history": hist, "rerun": "VERIF_SEED=%d bin/check %s --tier %s" % (run.seed, prop, run.tier)}, {"class": "sample", "kind": kind})
+            else:
+                run.extra.setdefault("not_linearisable_even_without_samples", []).append(bad)
+        else:
+            run.report("%s: recorded concurrent history %d is not linearisable as an atomic gate (TLC consumed %d of its events%s)" % (
+                kind, bad, consumed, ", NeverOver violated" if r.violation else ""),
+                {"history": hist, "rerun": "VERIF_SEED=%d bin/check %s --tier %s" % (run.seed, prop, run.tier)}, {"class": "gate", "kind": kind})
         remaining = [x for x in remaining if x["trace"] != bad]
     run.extra["stress_note"] = "stopped after 6 non-linearisable histories"
 
